@@ -311,7 +311,8 @@ func (r *DeploymentReconciler) reconcileSliceWithCollisionCount(
 	}
 	// object already exists, check for hash collision
 	isController := r.ownerStrategy.IsController(deploy.ClientObject(), conflictingSlice.ClientObject())
-	isEqual := equality.Semantic.DeepEqual(conflictingSlice.GetObjects(), slice.GetObjects())
+	isEqual := equality.Semantic.DeepEqual(
+		withAPIDefaults(conflictingSlice.GetObjects()), withAPIDefaults(slice.GetObjects()))
 	if isController && isEqual {
 		// we are controller and object is equal
 		// -> all good, just a slow cache :)
@@ -330,6 +331,22 @@ func (r *DeploymentReconciler) reconcileSliceWithCollisionCount(
 	return &sliceCollisionError{
 		key: sliceKey,
 	}
+}
+
+// withAPIDefaults returns a copy of the given objects with the defaults the API server applies when storing them,
+// so objects read back from the API compare equal to the objects they were created from.
+func withAPIDefaults(objects []corev1alpha1.ObjectSetObject) []corev1alpha1.ObjectSetObject {
+	if objects == nil {
+		return nil
+	}
+	out := make([]corev1alpha1.ObjectSetObject, len(objects))
+	for i, obj := range objects {
+		if len(obj.CollisionProtection) == 0 {
+			obj.CollisionProtection = corev1alpha1.CollisionProtectionPrevent
+		}
+		out[i] = obj
+	}
+	return out
 }
 
 func getChangeCause(
